@@ -1,5 +1,6 @@
 //! Parallel processing for DBC files
 
+use crate::field_parser::bounded_capacity;
 use crate::{DbcHeader, FieldType, Record, RecordSet, Result, Schema, StringBlock, Value};
 use rayon::prelude::*;
 use std::io::{Cursor, Read, Seek, SeekFrom};
@@ -93,8 +94,8 @@ fn parse_record_with_schema<R: Read + Seek>(
 }
 
 /// Parse a record without a schema in parallel
-fn parse_record_raw<R: Read + Seek>(cursor: &mut R, header: &DbcHeader) -> Result<Record> {
-    let mut values = Vec::with_capacity(header.field_count as usize);
+fn parse_record_raw(cursor: &mut Cursor<&[u8]>, header: &DbcHeader) -> Result<Record> {
+    let mut values = Vec::with_capacity(bounded_capacity(cursor, header.field_count, 4));
 
     for _ in 0..header.field_count {
         // Without a schema, we assume all fields are 32-bit integers
